@@ -76,11 +76,17 @@ func c12Hostile(nsub, maxPayload int) {
 	v := newZZVictim(nsub)
 	action := sym.U32("action")
 	var payload []byte
-	shape := sym.Choose("payload-shape", 4)
+	shape := sym.Choose("payload-shape", 5)
 	if shape != 3 {
 		sym.Assume(action != 3) // terminate naming THIS object is the documented way to remove it
 	}
 	switch shape {
+	case 4:
+		// a dynamic value that is a list or map of zero-width elements: the count field is all there is
+		sigs := []string{"[v]", "[()]", "[(v)]", "{vv}", "[[()]]", "{v()}"}
+		sig := sigs[sym.Choose("p-zero-width-signature", len(sigs))]
+		payload = append(append(zzLE32(uint32(len(sig))), []byte(sig)...), zzLE32(sym.U32("p-count"))...)
+		sym.Assume(action == 5 || action == 6) // property / setProperty take values
 	case 3:
 		// terminate naming ANOTHER object (any id but this object's own, 0 standing for "self"): refused
 		other := sym.U32("p-terminate-id")
